@@ -100,6 +100,27 @@ func (m *Machine) isChar(t Term) bool {
 	return ok && p.K == 0 && m.isDecode(p.X)
 }
 
+// isCurRuneBytes: t is json[i:][:size] or json[i:i+size] with size the decoded width of the current character.
+func (m *Machine) isCurRuneBytes(t Term) bool {
+	sl, ok := t.(TSlice)
+	if !ok || sl.Hi == nil || sl.Max != nil {
+		return false
+	}
+	lo0 := sl.Lo == nil
+	if k, ok := constInt(sl.Lo); sl.Lo != nil && ok && k == 0 {
+		lo0 = true
+	}
+	if in, ok := sl.X.(TSlice); ok && lo0 {
+		return isParamTerm(in.X, m.jsonV) && m.loopVar(in.Lo, m.idxV) && in.Hi == nil && m.isSize(sl.Hi)
+	}
+	if isParamTerm(sl.X, m.jsonV) && m.loopVar(sl.Lo, m.idxV) {
+		if b, ok := sl.Hi.(TBin); ok && b.Op == token.ADD {
+			return (m.loopVar(b.X, m.idxV) && m.isSize(b.Y)) || (m.loopVar(b.Y, m.idxV) && m.isSize(b.X))
+		}
+	}
+	return false
+}
+
 func (m *Machine) isSize(t Term) bool {
 	p, ok := t.(TProj)
 	return ok && p.K == 1 && m.isDecode(p.X)
@@ -653,6 +674,13 @@ func (m *Machine) callStep(st Step, a *absEval, env *Env, binds map[string]*AVal
 						a.bufLen[role] = U
 						return true
 					}
+				}
+				if m.isCurRuneBytes(call.Args[0]) {
+					// the source bytes of the current character: json[i:][:size] / json[i:i+size] — the same text as WriteRune(char), since
+					// the iteration has already rejected an invalid encoding (the only case in which they differ)
+					env.Acts = append(env.Acts, Action{Op: "W", Buf: role, What: "char", Pos: pos})
+					a.bufLen[role] = T
+					return true
 				}
 				if s, ok := isConstStringTerm(call.Args[0]); ok {
 					env.Acts = append(env.Acts, Action{Op: "W", Buf: role, What: s, Pos: pos})
